@@ -37,6 +37,13 @@ def main():
     with ThreadPoolExecutor(8) as ex:
         for d, prop, code, lines in ex.map(one, dirs):
             meta = json.load(open(os.path.join(d, 'meta.json')))
+            if meta.get('obsolete'):
+                # the change no longer breaks the property on today's tree (a later fix: commit removed what it relied on);
+                # it must now be silent - it is a behaviour-preserving variant
+                print('%-8s %-9s %s' % (os.path.basename(d), 'obsolete', ('silent' if code == 0 else 'NOT SILENT exit %s' % code) + ': ' + meta['obsolete'][:120]))
+                if code != 0:
+                    bad += 1
+                continue
             was = prop in meta.get('detected_by', [])
             now = code == 1
             tag = 'detected' if now else ('MISSED' if code == 0 else 'exit %s' % code)
